@@ -56,10 +56,23 @@ def grid_s(g) -> str:
     return f"{ny} {nx} " + ";".join(frac_s(v) for v in tuple(g.affine)[:6])
 
 
+_ARNG = [None]  # spelling generator, seeded from R.rng in run()
+
+
 def anchor_py(a, xy_, AnchorEnum):
+    """a Python spelling of the canonical anchor `a`.  "default" is only ever the literal string (it is what the
+    identity fast path of compute_output_geobox tests); every other anchor is spelled in one of the ways
+    `_norm_anchor` accepts: strings, AnchorEnum members, floats 0 / 0.0 / 0.5 / f, XY tuples."""
+    rng = _ARNG[0]
+    pick = (lambda xs: xs[0]) if rng is None else rng.choice
     if isinstance(a, tuple):
+        if a[0] == a[1] and a[0] not in (0, 0.5):
+            return pick([xy_(a[0], a[1]), float(a[0])])
         return xy_(a[0], a[1])
-    return {"default": "default", "edge": AnchorEnum.EDGE, "center": "center", "floating": AnchorEnum.FLOATING}[a]
+    return pick({"default": ["default"],
+                 "edge": ["edge", AnchorEnum.EDGE, 0, 0.0],
+                 "center": ["center", "centre", AnchorEnum.CENTER, 0.5],
+                 "floating": ["floating", AnchorEnum.FLOATING]}[a])
 
 
 def anchor_s(a) -> str:
@@ -211,7 +224,7 @@ def snap_part(R: Run, mods):
         R.corr(f"c11 round {frac_s(Fraction(k, 4))}", lambda: frac_s(round(k / 4, 0)), sig="round")
 
     # from_bbox on dyadic inputs
-    anchors = ["default", "edge", "center", "floating", (0.25, 0.75), (0.5, 0.0)]
+    anchors = ["default", "edge", "center", "floating", (0.25, 0.75), (0.5, 0.0), (0.25, 0.25)]
     for _ in range(R.pick(600, 6000)):
         r = rng.choice([1, 2, 0.5, 0.25, 30, 10, 1024])
         l = rng.randint(-4000, 4000) / 8 * r
@@ -325,7 +338,7 @@ def captured_line(mods, g, crs, mode, shape, tight, anchor, tol, rnd, spy):
 def exact_cog_part(R: Run, mods):
     Affine, GeoBox, ov, M, CRS, norm_crs, _pick, resxy_, xy_, AnchorEnum = mods
     rng = R.rng
-    anchors = ["default", "default", "edge", "center", "floating", (0.25, 0.75)]
+    anchors = ["default", "default", "edge", "edge", "center", "floating", (0.25, 0.75), (0.25, 0.25)]
     srcs = []
     for _ in range(R.pick(120, 900)):
         crs = rng.choice(["EPSG:32633", "EPSG:3857", "EPSG:4326", "EPSG:3577", "EPSG:6933", "ESRI:54009", "OGC:CRS84"])
@@ -342,6 +355,9 @@ def exact_cog_part(R: Run, mods):
         else:
             r = rng.choice([32, 10, 2048])
             A = Affine(r, 0, 1500000 + 32 * rng.randint(0, 999), 0, -r, 6500000 - 32 * rng.randint(0, 999))
+        # not necessarily registered on the edge-aligned lattice: centre-registered and other dyadic sub-pixel offsets
+        fx, fy = rng.choice([(0, 0), (0, 0), (0.5, 0.5), (0.25, 0.75), (0.5, 0)])
+        A = Affine(A.a, 0, A.c + fx * r, 0, A.e, A.f + fy * r)
         k = rng.random()
         if k < 0.15:
             A = Affine(0, A.a, A.c, A.a, 0, A.f - 70 * r)  # exact 90-degree turned source
@@ -416,6 +432,12 @@ def exact_cog_part(R: Run, mods):
         sig = (f"out|{mode_s(mode).split(':')[0]}|{'same-crs' if ' T ' in line[:12] else 'x-crs'}|{anchor_s(anchor).split(':')[0]}"
                + ("|tight" if tight else "") + ("|rnd" if rnd is not None else ""))
         R.corr(line, lambda: real, sig=sig)
+        if box and not callable(rnd) and mode_s(mode) != "bad":
+            # the property oracles on the exact stream as well (own-CRS fast-path corner, explicit anchors on sources
+            # that are not aligned that way, ...)
+            spec = crs if isinstance(crs, str) else str(crs)
+            judge(R, mods, g, spec, mode, shape, tight, anchor, tol, rnd, box[0][0], box[0][1],
+                  {"line": line, "class": "exact", "dst": spec, "anchor": anchor_s(anchor)}, None, None)
         if box and box[0][1].final is not None:
             fb = box[0][1].final["bbox"]
             R.oracle(tuple(fb.bbox) == tuple(bbox.bbox), "captured-bbox-consistent", {"line": line},
@@ -595,6 +617,9 @@ def nonepsg_part(R: Run, mods):
             g = make_source(R, mods, lon, lat, sc, extent, npx, rng.choice([False, False, True]))
         except Exception:  # pylint: disable=broad-except
             continue
+        if not source_inside(g, a, b, False):
+            R.count("float:skipped-outside-area-of-use")
+            continue
         dc = mk_crs(rng, CRS, b, sb)
         mode = rng.choice(["auto", "auto", "fit", "same"]) if sc.units == dc.units else rng.choice(["auto", "fit"])
         anchor = rng.choice(["default", "default", "center", "floating"])
@@ -609,12 +634,34 @@ def nonepsg_part(R: Run, mods):
         judge(R, mods, g, b, mode, None, False, anchor, tol, None, out, spy, case, lon, lat)
 
 
+def source_inside(g, src_crs, dst, utm_involved) -> bool:
+    """is the whole source (a 13x13 lattice over it) inside the areas of use of both CRSs"""
+    from pyproj import Transformer
+
+    try:
+        sny, snx = g.shape
+        X, Y = np.meshgrid(np.linspace(0, snx, 13), np.linspace(0, sny, 13))
+        sa = g.affine
+        ll = Transformer.from_crs(g.crs.proj, "EPSG:4326", always_xy=True).transform(
+            (sa.a * X + sa.b * Y + sa.c).ravel(), (sa.d * X + sa.e * Y + sa.f).ravel())
+        lons, lats = np.asarray(ll[0]), np.asarray(ll[1])
+        inside = (np.isfinite(lons).all() and np.isfinite(lats).all() and np.abs(lats).max() < (79 if utm_involved else 83)
+                  and np.abs(lons).max() < 179 and (not utm_involved or lons.max() - lons.min() < 14))
+        if src_crs == "EPSG:6933" or dst == "EPSG:6933":
+            inside = inside and np.abs(lats).max() < 80
+        if "laea" in src_crs.lower() or "laea" in dst.lower() or "Lambert_Azimuthal" in src_crs + dst:
+            inside = inside and (lats.max() - lats.min() < 40) and (lons.max() - lons.min() < 60)
+        return bool(inside)
+    except Exception:  # pylint: disable=broad-except
+        return False
+
+
 def float_part(R: Run, mods):
     from pyproj import Transformer
 
     Affine, GeoBox, ov, M, CRS, norm_crs, _pick, resxy_, xy_, AnchorEnum = mods
     rng = R.rng
-    anchors = ["default", "default", "default", "edge", "center", "floating", (0.3, 0.6)]
+    anchors = ["default", "default", "default", "edge", "center", "floating", (0.3, 0.6), (0.3, 0.3)]
     for it in range(R.pick(110, 600)):
         aus = rng.random() < 0.2
         if aus:
@@ -652,21 +699,7 @@ def float_part(R: Run, mods):
         except Exception:  # pylint: disable=broad-except
             continue
         # the whole source (not just its centre) must lie inside the areas of use of both CRSs
-        try:
-            sny, snx = g.shape
-            X, Y = np.meshgrid(np.linspace(0, snx, 13), np.linspace(0, sny, 13))
-            sa = g.affine
-            ll = Transformer.from_crs(g.crs.proj, "EPSG:4326", always_xy=True).transform(
-                (sa.a * X + sa.b * Y + sa.c).ravel(), (sa.d * X + sa.e * Y + sa.f).ravel())
-            lons, lats = np.asarray(ll[0]), np.asarray(ll[1])
-            inside = (np.isfinite(lons).all() and np.isfinite(lats).all() and np.abs(lats).max() < (79 if utm_involved else 83)
-                      and np.abs(lons).max() < 179 and (not utm_involved or lons.max() - lons.min() < 14))
-            if src_crs == "EPSG:6933" or dst == "EPSG:6933":
-                inside = inside and np.abs(lats).max() < 80
-            if "laea" in src_crs.lower() or "laea" in dst.lower() or "Lambert_Azimuthal" in src_crs + dst:
-                inside = inside and (lats.max() - lats.min() < 40) and (lons.max() - lons.min() < 60)
-        except Exception:  # pylint: disable=broad-except
-            inside = False
+        inside = source_inside(g, src_crs, dst, utm_involved)
         if not inside:
             R.count("float:skipped-outside-area-of-use")
             continue
@@ -888,6 +921,59 @@ def forwarding_oracle(R, mods, g, dst_arg, mode, shape, tight, anchor, tol, rnd,
              f"{tuple(out.shape)} {tuple(out.affine)[:6]}")
 
 
+def fastpath_part(R: Run, mods):
+    """the own-CRS corner (identity fast path): every explicit anchor spelling on sources that are NOT aligned that
+    way (centre-registered, arbitrary sub-pixel offsets, mirrored, rotated), every spelling of the own CRS; the
+    requested alignment is judged, and the result is compared with the slow path (same request with the resolution
+    passed explicitly equal to the source's, and the CRS spelled differently)"""
+    Affine, GeoBox, ov, M, CRS, norm_crs, _pick, resxy_, xy_, AnchorEnum = mods
+    rng = R.rng
+    for _ in range(R.pick(56, 400)):
+        spec = rng.choice(["EPSG:32633", "EPSG:3857", "EPSG:4326", "EPSG:6933", "ESRI:54009", "OGC:CRS84", "EPSG:3577"])
+        lon, lat = (rng.uniform(12.5, 17.5), rng.uniform(35, 60)) if spec != "EPSG:3577" else (rng.uniform(125, 145), rng.uniform(-35, -18))
+        rotated = rng.choice([False, False, False, "mirror", True])
+        try:
+            g = make_source(R, mods, lon, lat, mk_crs(rng, CRS, spec), rng.choice([3e3, 4e4, 2e5]), rng.choice([1, 7, 40, 150]), rotated)
+        except Exception:  # pylint: disable=broad-except
+            continue
+        # sub-pixel registration: centre-registered, quarter, arbitrary, or already edge-aligned
+        px = abs(g.resolution.x)
+        fx, fy = rng.choice([(0.5, 0.5), (0.5, 0.5), (0.25, 0.75), (rng.random(), rng.random()), (0.0, 0.0)])
+        A = g.affine
+        if not rotated or rotated == "mirror":
+            A = Affine(A.a, 0, (math.floor(A.c / px) + fx) * px, 0, A.e, (math.floor(A.f / px) + fy) * px)
+        g = GeoBox(g.shape, A, g.crs)
+        spellings = [g.crs, mk_crs(rng, CRS, spec), spec, mk_crs(rng, CRS, g.crs.to_wkt())]
+        if spec.startswith("EPSG:"):
+            spellings += [int(spec.split(":")[1]), spec.lower()]  # authority names of other registries are case-sensitive in PROJ
+        dst_arg = rng.choice(spellings)
+        anchor = rng.choice(["edge", "edge", "center", "floating", (0.3, 0.6), (0.3, 0.3), "default"])
+        mode = rng.choice(["auto", "auto", "same"])
+        tol = rng.choice([0.01, 0.01, 0.0, 0.05])
+        tight = rng.random() < 0.1
+        case = {"src": f"{tuple(g.shape)} {tuple(g.affine)[:6]} {spec}", "dst": spec, "dst_spelling": type(dst_arg).__name__,
+                "mode": mode, "shape": None, "tight": tight, "anchor": anchor_s(anchor), "tol": tol, "round": None, "class": "own-crs",
+                "registration": [fx, fy]}
+        try:
+            out, spy = call_cog(mods, g, dst_arg, mode, None, tight, anchor, tol, None)
+        except Exception as e:  # pylint: disable=broad-except
+            R.oracle(False, "compute-output-raises", case, f"{type(e).__name__}: {e}")
+            continue
+        judge(R, mods, g, spec, mode, None, tight, anchor, tol, None, out, spy, case, None, None)
+        if anchor != "default":
+            # slow path: resolution given explicitly (equal to the source's), CRS spelled differently
+            try:
+                sr = g.resolution
+                slow, _ = call_cog(mods, g, rng.choice(spellings), (sr.x, sr.y), None, tight, anchor, tol, None)
+            except Exception as e:  # pylint: disable=broad-except
+                R.oracle(False, "compute-output-raises", case, f"slow path: {type(e).__name__}: {e}")
+                continue
+            same = tuple(slow.shape) == tuple(out.shape) and slow.affine == out.affine and slow.crs.proj == out.crs.proj
+            R.oracle(same, "own-crs-equals-explicit-resolution", case,
+                     f"resolution={mode} gives {tuple(out.shape)} {tuple(out.affine)[:6]}{' (the source itself)' if out is g else ''}, "
+                     f"but the same request with resolution={sr.x, sr.y} gives {tuple(slow.shape)} {tuple(slow.affine)[:6]}")
+
+
 def coarse_part(R: Run, mods):
     """coarse destinations (output pixel >= 100 source pixels) with small tol and footprint edges placed
     tol * {0.5, 2} before / past output pixel boundaries (captured-bbox construction: the pixel size and the
@@ -939,12 +1025,14 @@ def coarse_part(R: Run, mods):
 
 def run(R: Run):
     mods = _import()
+    _ARNG[0] = __import__("random").Random(R.rng.getrandbits(32))
     snap_part(R, mods)
     snap_float_part(R, mods)
     exact_cog_part(R, mods)
     utm_part(R, mods)
     crs_churn(R, mods, R.pick(320, 1600))
     nonepsg_part(R, mods)
+    fastpath_part(R, mods)
     coarse_part(R, mods)
     float_part(R, mods)
     R.assumptions.append("pyproj/PROJ transformations, shapely buffer/densify and the pyproj UTM database query are parameters: "
